@@ -54,6 +54,11 @@ type cRace struct {
 	// PauseK > 0: B is paused at its PauseK-th marker, whichever it is (any point of its own cache
 	// population: the two writers B and C interleave at that point), not at hit.probe of package Pkg
 	PauseK int `json:"pause_k,omitempty"`
+	// Regen: A is killed right after it advertised `.dat.tar.gz` of package Pkg (marker pkg.dat: the entry has its
+	// control and data sections but no `.dat.tar`); B hits that entry and is paused INSIDE PackageData's regeneration
+	// of the tar (marker regen.created: the output file exists, nothing is written yet); C hits the same entry
+	// meanwhile.  Whatever C finds under the final name must be the complete tar or nothing.
+	Regen bool `json:"regen,omitempty"`
 }
 
 type cacheSuite struct{}
@@ -188,6 +193,9 @@ func (cacheSuite) Gen(r *Rng, i int, tier string) any {
 				c.Race.Kill = ""
 			}
 		}
+		if r.Chance(30) {
+			c.Race.Regen, c.Race.Kill, c.Race.PauseK = true, "pkg.dat", 0
+		}
 		return c
 	}
 	crashK := func() int {
@@ -251,8 +259,12 @@ func (cacheSuite) Gen(r *Rng, i int, tier string) any {
 		}
 	}
 	// F19a shape: killed right after `.dat.tar.gz` was advertised, the next build is killed inside the regeneration
-	if r.Chance(6) {
+	if r.Chance(10) {
 		j := r.Intn(cacheNPkg)
+		if r.Chance(50) {
+			// on a cold cache for certain (after earlier complete builds both kills would come too late)
+			c.Builds, rev = nil, 0
+		}
 		c.Builds = append(c.Builds, cBuild{Rev: rev, HeadRev: -1, Crash: cacheMarkerAt(c.signed, j, "pkg.dat")}, cBuild{Rev: rev, HeadRev: -1, Crash: 3 + j})
 		// (with a cold cache; with a warm one the markers are beyond the build and nothing happens; the second
 		// build passes one hit.probe marker per cached package, then regen.begin, regen.created)
@@ -645,6 +657,10 @@ func runRace(c *cCase, e *cacheEnv) []Step {
 	if c.Race.PauseK > 0 {
 		pause = fmt.Sprintf(":%d", c.Race.PauseK)
 	}
+	if c.Race.Regen {
+		pause = "regen.created:1"
+		tags = append(tags, "race-regeneration")
+	}
 	e.nchild++
 	bid := e.nchild
 	waitB := startChild(e.scratch, bid, childOpts{World: e.world, Key: e.key, Cache: cache, Pause: pause})
@@ -656,6 +672,8 @@ func runRace(c *cCase, e *cacheEnv) []Step {
 			tr := strings.Split(strings.TrimSpace(string(b)), "\n")
 			tags = append(tags, "race-paused-at:"+strings.SplitN(tr[len(tr)-1], " ", 2)[0])
 		}
+	case paused && c.Race.Regen:
+		tags = append(tags, "race-paused-in-tar-regeneration")
 	case paused:
 		tags = append(tags, "race-paused-in-cachedPackage")
 	default:
